@@ -196,18 +196,52 @@ package stree
 //@   at after "next.right = R": ghost R.rep = cr
 //@   at exit: ghost sq = lambda k int :: ite(k < count, sp[2 * k + 1], sp[k + count])
 //@
-// rewrite (treeToVine + vineToTree) rebuilds a subtree in place: same nodes, same keys, again a search tree. Its
-// contract is assumed here and checked by a bounded stand-in (the rotations need an in-order sequence argument).
+// vineToTree: the chain of count nodes is folded by rounds of left rotations (first count - step, step + 1 the largest
+// power of two not above count + 1, then half as many each round). What is proved: every rotateLeft call gets a chain
+// at least twice as long as its count (so no nil link is followed), and the result is a well-formed tree of the same
+// nodes, keys and representatives. That the result is balanced is C02 (not applicable), not C01.
+//@ func vineToTree
+//@   ghost cmp func(T, T) int, sp imap[*node[T]]
+//@   requires [C01] tree: treeOK(n, cmp) && chainOK(n, sp, count)
+//@   ensures  [C01] shape: ((n == nil) == (result == nil)) && treeOK(result, cmp) && cntOf(result) == old(cntOf(n))
+//@   ensures  [C01] keys: forall k int :: {inK(result, k)} inK(result, k) <==> old(inK(n, k))
+//@   ensures  [C01] desc: forall y ref :: {inD(result, y)} inD(result, y) <==> old(inD(n, y))
+//@   ensures  [C01] reps: forall k int :: {result.rep[k]} inK(result, k) ==> result.rep[k] == old(n.rep[k])
+//@   ensures  [C01] values: forall y *node[T] :: {y.X} old(allocated(y)) ==> y.X == old(y.X)
+//@   ensures  [C01] frame: forall y *node[T] :: {y.left} {y.right} {y.X} {y.keys} {y.desc} {y.cnt} {y.rep} old(allocated(y)) && !old(inD(n, y)) ==> sameNode(y)
+//@   modifies every(n.left), every(n.right), every(n.keys), every(n.desc), every(n.cnt), every(n.rep)
+//@   at entry: ghost h = 0
+//@   at entry: ghost D0 = ite(n == nil, emptyset(n.desc), n.desc)
+//@   at entry: ghost K0 = ite(n == nil, emptyset(n.keys), n.keys)
+//@   loop 1: invariant [C01] odd: step == 2 * h + 1 && 0 <= h && h <= count
+//@   at before "step = (2 * step) + 1": ghost h = step
+//@   call rotateLeft#1: cmp = cmp, sp = sp, m = count
+//@   at after "rotateLeft(stub, count-step)": ghost cs = rotateLeft_sq
+//@   at after "rotateLeft(stub, count-step)": ghost cm = step
+//@   call rotateLeft#2: cmp = cmp, sp = cs, m = cm
+//@   at after "rotateLeft(stub, left)": ghost cm = cm - left
+//@   at after "rotateLeft(stub, left)": ghost cs = rotateLeft_sq
+//@   loop 2: invariant [C01] stub: stub != nil && fresh(stub) && stub.left == nil && !(stub in D0) && !inD(stub.right, stub)
+//@   loop 2: invariant [C01] tree: treeOK(stub.right, cmp) && cntOf(stub.right) == old(cntOf(n)) && ((n == nil) == (stub.right == nil))
+//@   loop 2: invariant [C01] sets: (forall y ref :: {inD(stub.right, y)} {y in D0} inD(stub.right, y) <==> y in D0) && (forall k int :: {inK(stub.right, k)} {k in K0} inK(stub.right, k) <==> k in K0) && (forall k int :: {stub.right.rep[k]} k in K0 ==> stub.right.rep[k] == old(n.rep[k]))
+//@   loop 2: invariant [C01] chain: chainOK(stub.right, cs, cm) && 0 <= left && left <= cm
+//@   loop 2: invariant [C01] values: forall y *node[T] :: {y.X} old(allocated(y)) ==> y.X == old(y.X)
+//@   loop 2: invariant [C01] frame: forall y *node[T] :: {y.left} {y.right} {y.X} {y.keys} {y.desc} {y.cnt} {y.rep} old(allocated(y)) && !(y in D0) ==> sameNode(y)
+//@
+// rewrite (treeToVine + vineToTree) rebuilds a subtree in place: same nodes, same keys and representatives, again a
+// search tree; nothing outside the subtree is touched.
 //@ func rewrite
 //@   ghost cmp func(T, T) int
-//@   requires treeOK(root, cmp)
-//@   requires count: size == cntOf(root)
-//@   ensures [assumed] shape: (root == nil <==> result == nil) && treeOK(result, cmp) && cntOf(result) == old(cntOf(root))
-//@   ensures [assumed] keys: forall k int :: {inK(result, k)} inK(result, k) <==> old(inK(root, k))
-//@   ensures [assumed] desc: forall y ref :: {inD(result, y)} inD(result, y) <==> old(inD(root, y))
-//@   ensures [assumed] reps: forall k int :: {result.rep[k]} inK(result, k) ==> result.rep[k] == old(root.rep[k])
-//@   ensures [assumed] frame: forall y *node[T] :: {y.left} {y.right} {y.X} {y.keys} {y.desc} {y.cnt} {y.rep} old(allocated(y)) && !old(inD(root, y)) ==> sameNode(y)
+//@   requires [C01] treeOK(root, cmp)
+//@   requires [C01] count: size == cntOf(root)
+//@   ensures [C01,C04] shape: (root == nil <==> result == nil) && treeOK(result, cmp) && cntOf(result) == old(cntOf(root))
+//@   ensures [C01,C04] keys: forall k int :: {inK(result, k)} inK(result, k) <==> old(inK(root, k))
+//@   ensures [C01,C04] desc: forall y ref :: {inD(result, y)} inD(result, y) <==> old(inD(root, y))
+//@   ensures [C01,C04] reps: forall k int :: {result.rep[k]} inK(result, k) ==> result.rep[k] == old(root.rep[k])
+//@   ensures [C01,C04] frame: forall y *node[T] :: {y.left} {y.right} {y.X} {y.keys} {y.desc} {y.cnt} {y.rep} old(allocated(y)) && !old(inD(root, y)) ==> sameNode(y)
 //@   modifies every(root.left), every(root.right), every(root.keys), every(root.desc), every(root.cnt), every(root.rep)
+//@   call treeToVine#1: cmp = cmp
+//@   call vineToTree#1: cmp = cmp, sp = treeToVine_vs
 //@
 //@ func (*Tree).insert
 //@   ghostret nw *node[T]
